@@ -4,7 +4,7 @@
    validity of the request target (Token at its terminating SP). *)
 From Coq Require Import List NArith ZArith Lia Bool ZifyBool ZifyN ZifyNat.
 From HV Require Import Cursor Scan Model Api Spec Oracle.
-From HV.Proofs Require Import Base RefFacts Stable Clean.
+From HV.Proofs Require Import Base RefFacts Refine Entries Stable Clean.
 Import ListNotations.
 
 Notation CRLF := [13%N; 10%N].
@@ -300,4 +300,254 @@ Theorem ref_headers_complete hc cap off l hs :
 Proof.
   unfold ref_headers. intros H. apply ref_header_block_complete in H as [t Ht]; [|lia].
   exists t. apply Ht. lia.
+Qed.
+
+(* ================= start lines and whole messages ================= *)
+
+(* the buffer ends in a run of target bytes that is not valid UTF-8: the deferred check *)
+Definition bad_target (l : list N) : Prop :=
+  exists pre t, l = pre ++ t /\ t <> [] /\ snd (span uri_char t) = [] /\ utf8_valid t = false.
+
+Definition okx (X : Prop) (x : rres unit) : Prop :=
+  (exists o r, x = ROk tt o r) \/ x = RErr TooManyHeaders \/ (x = RErr Token /\ X).
+
+Definition Comp (K : nat -> list N -> rres unit) : Prop :=
+  forall off l, K off l = RPart -> exists ext, okx (bad_target l) (K off (l ++ ext)).
+
+Lemma bad_target_suffix k l : bad_target (skipn k l) -> bad_target l.
+Proof.
+  intros [pre [t (E & H)]]. exists (firstn k l ++ pre), t. split; [|exact H].
+  rewrite <- app_assoc, <- E. symmetry. apply firstn_skipn.
+Qed.
+
+Lemma okx_mono (X Y : Prop) x : (X -> Y) -> okx X x -> okx Y x.
+Proof. intros H [H1|[H1|[H1 H2]]]; [left|right; left|right; right]; auto. Qed.
+
+Lemma comp_bind {A} (s : nat -> list N -> rres A) (g : A -> nat -> list N -> rres unit) :
+  (forall ext off l, extends ext (s off l) (s off (l ++ ext))) ->
+  (forall off l, advances0 off l (s off l)) ->
+  (forall a, Comp (g a)) ->
+  (forall off l, s off l = RPart -> exists ext, okx (bad_target l) (rbind (s off (l ++ ext)) g)) ->
+  Comp (fun off l => rbind (s off l) g).
+Proof.
+  intros Hst Hadv Hg Hs off l H. specialize (Hadv off l).
+  destruct (s off l) as [a o r| |e] eqn:E; cbn [rbind] in H.
+  - destruct (Hg a o r H) as [ext Hok]. exists ext. specialize (Hst ext off l). rewrite E in Hst. cbn [extends] in Hst.
+    rewrite Hst. cbn [rbind]. eapply okx_mono; [|exact Hok].
+    destruct Hadv as [k (_ & _ & ->)]. apply bad_target_suffix.
+  - apply Hs. exact E.
+  - discriminate.
+Qed.
+
+Definition st_res (st : status) : rres unit :=
+  match st with Complete n => ROk tt n [] | Partial => RPart | Error e => RErr e | Faulted _ => RPart end.
+
+Definition K5 hc cap : nat -> list N -> rres unit := fun o l => st_res (fst (ref_headers hc cap o l)).
+
+Lemma K5_comp hc cap : Comp (K5 hc cap).
+Proof.
+  intros off l H. unfold K5 in *. destruct (ref_headers hc cap off l) as [st hs] eqn:E. cbn [fst] in H.
+  destruct st; try discriminate.
+  - destruct (ref_headers_complete _ _ _ _ _ E) as [t [[n Hn]|Ht]]; exists t.
+    + left. rewrite Hn. eexists; eexists; reflexivity.
+    + right; left. rewrite Ht. reflexivity.
+  - exfalso. eapply (ref_headers_no_fault hc cap off l). rewrite E. reflexivity.
+Qed.
+
+Notation TAIL2 := [13%N; 10%N; 13%N; 10%N].
+Lemma K5_crlf hc cap o : K5 hc cap o CRLF = ROk tt (2 + o) [].
+Proof. reflexivity. Qed.
+
+(* ---- line end ---- *)
+Definition K4 hc cap : nat -> list N -> rres unit := fun o l => rbind (ref_eol NewLine o l) (fun _ => K5 hc cap).
+Lemma eol_part e off l : ref_eol e off l = RPart ->
+  exists t, ref_eol e off (l ++ t ++ CRLF) = ROk tt (length (l ++ t) + off) CRLF.
+Proof.
+  unfold ref_eol. destruct l as [|b r]; [intros _; exists CRLF; reflexivity|].
+  destruct (is 13 b) eqn:E13; [|destruct (is 10 b); discriminate].
+  destruct r as [|b2 r2]; [|destruct (is 10 b2); discriminate]. intros _. exists [10%N]. cbn [app]. rewrite E13. reflexivity.
+Qed.
+Lemma K4_comp hc cap : Comp (K4 hc cap).
+Proof.
+  apply comp_bind.
+  - intros. apply ref_eol_stable.
+  - intros. apply advances_weaken. apply ref_eol_adv.
+  - intros _. apply K5_comp.
+  - intros off l H. destruct (eol_part _ _ _ H) as [t Ht]. exists (t ++ CRLF). rewrite Ht. cbn [rbind]. left. eexists; eexists; reflexivity.
+Qed.
+Lemma K4_tail hc cap o : K4 hc cap o TAIL2 = ROk tt (4 + o) [].
+Proof. reflexivity. Qed.
+
+(* ---- version ---- *)
+Lemma is_prefix_split : forall a b, is_prefix a b = true -> b = a ++ skipn (length a) b.
+Proof.
+  induction a as [|x a IH]; intros b H; [reflexivity|]. destruct b as [|y b]; [discriminate|].
+  cbn [is_prefix] in H. apply andb_prop in H as [H1 H2]. apply N.eqb_eq in H1. subst y.
+  cbn [length skipn app]. f_equal. apply IH. exact H2.
+Qed.
+Lemma take_none_short : forall n (l : list N), take n l = None -> length l < n.
+Proof.
+  induction n as [|n IH]; intros l H; [discriminate|]. destruct l as [|x l]; [cbn; lia|].
+  cbn [take] in H. destruct (take n l) eqn:E; [discriminate|]. apply IH in E. cbn [length]. lia.
+Qed.
+Lemma version_part off l : ref_version off l = RPart ->
+  exists t, forall R, ref_version off (l ++ t ++ R) = ROk 1%N (8 + off) R.
+Proof.
+  unfold ref_version. destruct (take 8 l) eqn:Et.
+  { destruct (list_eqb _ _); [discriminate|]. destruct (list_eqb _ _); discriminate. }
+  destruct (is_prefix l HTTP1dot) eqn:Ep; [|discriminate]. intros _.
+  exists (skipn (length l) HTTP1dot ++ [49%N]). intros R.
+  rewrite <- app_assoc. rewrite (app_assoc l). rewrite <- (is_prefix_split _ _ Ep). reflexivity.
+Qed.
+Definition K3v hc cap : nat -> list N -> rres unit := fun o l => rbind (ref_version o l) (fun _ => K4 hc cap).
+Lemma K3v_comp hc cap : Comp (K3v hc cap).
+Proof.
+  apply comp_bind.
+  - intros. apply ref_version_stable.
+  - intros. apply advances_weaken. apply ref_version_adv.
+  - intros _. apply K4_comp.
+  - intros off l H. destruct (version_part _ _ H) as [t Ht]. exists (t ++ TAIL2). rewrite Ht. cbn [rbind]. left. eexists; eexists; reflexivity.
+Qed.
+Notation VTAIL := [72; 84; 84; 80; 47; 49; 46; 49; 13; 10; 13; 10]%N.
+Lemma K3v_tail hc cap o : K3v hc cap o VTAIL = ROk tt (12 + o) [].
+Proof. reflexivity. Qed.
+
+(* ---- optional run of spaces ---- *)
+Lemma spaces_part ms off l : ref_spaces ms off l = RPart ->
+  forall c R, is 32 c = false -> ref_spaces ms off (l ++ c :: R) = ROk tt (length l + off) (c :: R).
+Proof.
+  unfold ref_spaces. destruct ms; [|discriminate]. destruct (span (is 32) l) as [s r] eqn:Es.
+  destruct r; [|discriminate]. intros _ c R Hc.
+  rewrite (span_all_stop (is 32) l (c :: R)); [reflexivity|rewrite Es; reflexivity|exact Hc].
+Qed.
+Definition K3 ms hc cap : nat -> list N -> rres unit := fun o l => rbind (ref_spaces ms o l) (fun _ => K3v hc cap).
+Lemma K3_comp ms hc cap : Comp (K3 ms hc cap).
+Proof.
+  apply comp_bind.
+  - intros. apply ref_spaces_stable.
+  - intros. apply ref_spaces_adv.
+  - intros _. apply K3v_comp.
+  - intros off l H. exists VTAIL. rewrite (spaces_part _ _ _ H) by reflexivity. cbn [rbind]. left. eexists; eexists; reflexivity.
+Qed.
+Lemma K3_tail ms hc cap o : K3 ms hc cap o VTAIL = ROk tt (12 + o) [].
+Proof. destruct ms; reflexivity. Qed.
+
+(* ---- target ---- *)
+Definition K2t ms hc cap : nat -> list N -> rres unit := fun o l => rbind (ref_target o l) (fun _ => K3 ms hc cap).
+Lemma K2t_comp ms hc cap : Comp (K2t ms hc cap).
+Proof.
+  apply comp_bind.
+  - intros. apply ref_target_stable.
+  - intros. apply advances_weaken. apply ref_target_adv.
+  - intros _. apply K3_comp.
+  - intros off l H. unfold ref_target in H. destruct (span uri_char l) as [t r] eqn:Es. destruct r as [|b r'].
+    2:{ destruct (negb (is 32 b)); [discriminate|]. destruct (null t); [discriminate|]. destruct (negb (utf8_valid t)); discriminate. }
+    clear H. pose proof (span_all_fst uri_char l ltac:(rewrite Es; reflexivity)) as Hf. rewrite Es in Hf. cbn [fst] in Hf. subst t.
+    destruct l as [|x l'].
+    + exists (47%N :: 32%N :: VTAIL). cbn [app]. left. destruct ms; eexists; eexists; reflexivity.
+    + exists (32%N :: VTAIL). unfold ref_target.
+      rewrite (span_all_stop uri_char (x :: l') (32%N :: VTAIL)); [|rewrite Es; reflexivity|reflexivity].
+      change (negb (is 32 32)) with false. cbn iota. cbn [null].
+      destruct (utf8_valid (x :: l')) eqn:Eu; cbn [negb rbind].
+      * left. rewrite K3_tail. eexists; eexists; reflexivity.
+      * right; right. split; [reflexivity|]. exists [], (x :: l'). repeat split; [discriminate|rewrite Es; reflexivity|exact Eu].
+Qed.
+Notation TTAIL := (47%N :: 32%N :: VTAIL).
+Lemma K2t_tail ms hc cap o : K2t ms hc cap o TTAIL = ROk tt (14 + o) [].
+Proof. destruct ms; reflexivity. Qed.
+Definition K2 ms hc cap : nat -> list N -> rres unit := fun o l => rbind (ref_spaces ms o l) (fun _ => K2t ms hc cap).
+Lemma K2_comp ms hc cap : Comp (K2 ms hc cap).
+Proof.
+  apply comp_bind.
+  - intros. apply ref_spaces_stable.
+  - intros. apply ref_spaces_adv.
+  - intros _. apply K2t_comp.
+  - intros off l H. exists TTAIL. rewrite (spaces_part _ _ _ H) by reflexivity. cbn [rbind]. left. rewrite K2t_tail. eexists; eexists; reflexivity.
+Qed.
+Lemma K2_tail ms hc cap o : K2 ms hc cap o TTAIL = ROk tt (14 + o) [].
+Proof. destruct ms; reflexivity. Qed.
+
+(* ---- method ---- *)
+Definition K1 ms hc cap : nat -> list N -> rres unit := fun o l => rbind (ref_method o l) (fun _ => K2 ms hc cap).
+Lemma K1_comp ms hc cap : Comp (K1 ms hc cap).
+Proof.
+  apply comp_bind.
+  - intros. apply ref_method_stable.
+  - intros. apply advances_weaken. apply ref_method_adv.
+  - intros _. apply K2_comp.
+  - intros off l H. unfold ref_method in H. destruct (span tchar l) as [m r] eqn:Es. destruct r as [|b r'].
+    2:{ destruct (null m); [discriminate|]. destruct (is 32 b); discriminate. }
+    clear H. pose proof (span_all_fst tchar l ltac:(rewrite Es; reflexivity)) as Hf. rewrite Es in Hf. cbn [fst] in Hf. subst m.
+    destruct l as [|x l'].
+    + exists (71%N :: 32%N :: TTAIL). cbn [app]. left. destruct ms; eexists; eexists; reflexivity.
+    + exists (32%N :: TTAIL). unfold ref_method.
+      rewrite (span_all_stop tchar (x :: l') (32%N :: TTAIL)); [|rewrite Es; reflexivity|reflexivity].
+      cbn [null]. change (is 32 32) with true. cbn iota. cbn [rbind]. left. rewrite K2_tail. eexists; eexists; reflexivity.
+Qed.
+Notation MTAIL := (71%N :: 32%N :: TTAIL).
+Lemma K1_tail ms hc cap o : K1 ms hc cap o MTAIL = ROk tt (16 + o) [].
+Proof. destruct ms; reflexivity. Qed.
+
+(* ---- leading empty lines ---- *)
+Lemma empty_lines_part : forall n l off, length l <= n -> ref_empty_lines off l = RPart ->
+  exists t o, forall c R, is 13 c = false -> is 10 c = false -> ref_empty_lines off (l ++ t ++ c :: R) = ROk tt o (c :: R).
+Proof.
+  induction n as [|n IH]; intros l off Hn H.
+  { destruct l; [|cbn [length] in Hn; lia]. exists [], off. intros c R H13 H10. cbn [app ref_empty_lines]. rewrite H13, H10. reflexivity. }
+  destruct l as [|b r].
+  { exists [], off. intros c R H13 H10. cbn [app ref_empty_lines]. rewrite H13, H10. reflexivity. }
+  cbn [length] in Hn. cbn [ref_empty_lines] in H. destruct (is 13 b) eqn:E13.
+  - destruct r as [|b2 r2].
+    + exists [10%N], (2 + off). intros c R H13 H10. cbn [app ref_empty_lines]. rewrite E13. change (is 10 10) with true. cbn iota.
+      rewrite H13, H10. reflexivity.
+    + destruct (is 10 b2) eqn:E10; [|discriminate].
+      destruct (IH r2 (2 + off) ltac:(cbn [length] in *; lia) H) as [t [o Ht]]. exists t, o. intros c R H13 H10.
+      cbn [app ref_empty_lines]. rewrite E13, E10. apply Ht; assumption.
+  - destruct (is 10 b) eqn:E10; [|discriminate].
+    destruct (IH r (1 + off) ltac:(lia) H) as [t [o Ht]]. exists t, o. intros c R H13 H10.
+    cbn [app ref_empty_lines]. rewrite E13, E10. apply Ht; assumption.
+Qed.
+Definition K0 ms hc cap : nat -> list N -> rres unit := fun o l => rbind (ref_empty_lines o l) (fun _ => K1 ms hc cap).
+Lemma K0_comp ms hc cap : Comp (K0 ms hc cap).
+Proof.
+  apply comp_bind.
+  - intros. apply (ref_empty_lines_stable ext (length l)). lia.
+  - intros. apply (ref_empty_lines_adv (length l)). lia.
+  - intros _. apply K1_comp.
+  - intros off l H. destruct (empty_lines_part (length l) l off (le_n _) H) as [t [o Ht]].
+    exists (t ++ MTAIL). rewrite Ht by reflexivity. cbn [rbind]. left. rewrite K1_tail. eexists; eexists; reflexivity.
+Qed.
+
+Lemma request_pipe cf cap buf :
+  st_res (rq_status (ref_request cf cap buf)) =
+  K0 (allow_multiple_spaces_in_request_line_delimiters cf) (request_hcfg cf) cap 0 buf.
+Proof.
+  unfold ref_request, ref_request_line, K0, K1, K2, K2t, K3, K3v, K4, K5.
+  destruct (ref_empty_lines 0 buf) as [u1 o1 l1| |e1]; cbn [rbind rq_status st_res]; try reflexivity.
+  destruct (ref_method o1 l1) as [m o2 l2| |e2]; cbn [rbind rq_status st_res]; try reflexivity.
+  destruct (ref_spaces _ o2 l2) as [u3 o3 l3| |e3]; cbn [rbind rq_status st_res]; try reflexivity.
+  destruct (ref_target o3 l3) as [p o4 l4| |e4]; cbn [rbind rq_status st_res]; try reflexivity.
+  destruct (ref_spaces _ o4 l4) as [u5 o5 l5| |e5]; cbn [rbind rq_status st_res]; try reflexivity.
+  destruct (ref_version o5 l5) as [v o6 l6| |e6]; cbn [rbind rq_status st_res]; try reflexivity.
+  destruct (ref_eol NewLine o6 l6) as [u7 o7 l7| |e7]; cbn [rbind rq_status st_res]; try reflexivity.
+  destruct (ref_headers (request_hcfg cf) cap o7 l7) as [s hs]. reflexivity.
+Qed.
+
+Definition completes (bad : Prop) (st : status) : Prop :=
+  (exists n, st = Complete n) \/ st = Error TooManyHeaders \/ (st = Error Token /\ bad).
+
+Lemma okx_completes X st : okx X (st_res st) -> completes X st.
+Proof.
+  intros [[o [r H]]|[H|[H HX]]]; destruct st; cbn [st_res] in H; try discriminate.
+  - left. eexists; reflexivity.
+  - injection H as ->. right; left; reflexivity.
+  - injection H as ->. right; right. split; [reflexivity|exact HX].
+Qed.
+
+Theorem ref_request_completable cf cap buf :
+  rq_status (ref_request cf cap buf) = Partial ->
+  exists ext, completes (bad_target buf) (rq_status (ref_request cf cap (buf ++ ext))).
+Proof.
+  intros H. pose proof (request_pipe cf cap buf) as Hp. rewrite H in Hp. cbn [st_res] in Hp. symmetry in Hp.
+  destruct (K0_comp _ _ _ _ _ Hp) as [ext Hok]. exists ext. apply okx_completes. rewrite request_pipe. exact Hok.
 Qed.
